@@ -18,6 +18,9 @@ def _one(job):
         cmd += ["--cases", cases]
     if tag.startswith("c07"):
         cmd += ["--churn"]
+    if not cases and not mode.startswith("small"):
+        # the hand-picked cases run in ONE job of their own (tag ..._fixed), to the end, not in every shard
+        cmd += ["--fixed", "only" if tag.endswith("_fixed") else "none"]
     rc, so, se = C.sh(cmd, env=C.env_for_impl(hs), timeout=3000)
     if rc != 0:
         return {"error": (so + se)[-3000:], "job": [mode, hs, seed, n]}
@@ -34,6 +37,9 @@ def run_engine(ctx, tag, modes, n_quick, n_thorough, classes, hashseeds=("0",), 
     corpus = os.path.join(C.VERIF, "corpus", "engine.json")
     if os.path.exists(corpus):
         jobs.append(("plain", hashseeds[0], 0, 0, tag + "_corpus", corpus))
+    for hs in list(hashseeds)[:2]:
+        for part in range(3):
+            jobs.append(("plain", hs, part, 0, tag + "_fixed", None))
     for mode in modes:
         for hs in hashseeds:
             for k in range(shards):
